@@ -170,11 +170,24 @@ func (Sim) Run(raw json.RawMessage, prop string, keep bool) (res simfw.Result) {
 		return
 	}
 	if s.Leg == "response" {
-		e.response(world, docBytes, false)
+		// a history of responses over one document: all validated first, bodies read afterwards
+		var backs []func()
+		backs = append(backs, e.response(world, docBytes, s.Resp, false))
+		for i, more := range s.More {
+			if i >= 3 {
+				break
+			}
+			log.Add("sim", "next-response", fmt.Sprint(i+2), "")
+			backs = append(backs, e.response(world, docBytes, more, false))
+			res.Probe("resp-history")
+		}
+		for _, i := range readOrder(len(backs), s.ReadReverse) {
+			backs[i]()
+		}
 		if s.Again && s.Resp.Chunk.FaultAt > 0 {
 			s.Resp.Chunk.FaultAt = 0
 			log.Add("sim", "again", "fault-free response on the same document", "")
-			e.response(world, docBytes, true)
+			e.response(world, docBytes, s.Resp, true)()
 		}
 		res.Class = simfw.ClassKey("resp", len(s.Doc.Resp.Entries), s.Resp.Status, s.Resp.Method, len(s.Resp.Chunk.Sizes), s.Resp.Chunk.FaultAt > 0, s.Vals[0])
 		res.Nontrivial = true
@@ -264,9 +277,12 @@ func (e *env) request(world *World, docBytes []byte, again bool) {
 		switch q.GetBody {
 		case "ok":
 			body := orig
+			nget := 0
 			req.GetBody = func() (io.ReadCloser, error) {
+				nget++
 				log.Add(e.party, "GetBody", "", "ok")
-				return io.NopCloser(bytes.NewReader(body)), nil
+				// like a file-backed or pooled body: unusable once closed
+				return simenv.NewStream(fmt.Sprintf("getbody#%d", nget), body, simenv.ChunkPlan{}, log, &e.party), nil
 			}
 		case "err":
 			req.GetBody = func() (io.ReadCloser, error) {
@@ -377,6 +393,21 @@ func (e *env) request(world *World, docBytes []byte, again bool) {
 		} else if got, want := parts(verdicts[0]), parts(nverr); !reflect.DeepEqual(got, want) {
 			violate("C07", "failing-parts", "failing-parts", fmt.Sprintf("failing parts %v; neutral run %v (multi-error=%v, auth=%v)", got, want, s.Vals[0].MultiError, s.Auth))
 		}
+		// the security part against the reference model of the requirement semantics
+		wantSecOK := SecurityModel(s.Doc, func(name string) bool { return accepts(s.Auth[name]) })
+		gotSecOK := true
+		for _, p := range parts(verdicts[0]) {
+			if p == "security" || p == "request" {
+				gotSecOK = false
+			}
+		}
+		if gotSecOK != wantSecOK && (s.Vals[0].MultiError || !gotSecOK || verdicts[0] == nil) {
+			// (fail-fast mode reports only the first failing part, and security is checked first,
+			// so a missing security failure is conclusive there too)
+			violate("C07", "security-model", fmt.Sprintf("security-model:%s/%s", s.Doc.SecOp, s.Doc.SecDoc),
+				fmt.Sprintf("security part accepted=%v but the requirement semantics say %v (operation-level %q, document-level %q, callback outcomes %v)", gotSecOK, wantSecOK, s.Doc.SecOp, s.Doc.SecDoc, s.Auth))
+		}
+		res.Probe(fmt.Sprintf("security-model-%v", wantSecOK))
 		// callback invocations of validation #1 = the neutral run's
 		n1 := calls
 		if len(s.Vals) > 1 {
@@ -510,6 +541,17 @@ func (e *env) request(world *World, docBytes []byte, again bool) {
 		}
 		res.Probe("second-validation")
 	}
+}
+
+func readOrder(n int, reverse bool) []int {
+	out := make([]int, n)
+	for i := range out {
+		out[i] = i
+		if reverse {
+			out[i] = n - 1 - i
+		}
+	}
+	return out
 }
 
 func allSame(vs []ValOpts) bool {
@@ -675,9 +717,13 @@ func (e *env) checkIdempotent(docBytes []byte, after snapshot, final []byte, v V
 }
 
 // response runs the response leg once (C08 clause).
-func (e *env) response(world *World, docBytes []byte, again bool) {
+// response validates one response; the check that its body is still readable
+// is returned as a closure, so that a history of several responses can be
+// validated first and read afterwards (a body restored over storage that a
+// later validation reuses shows only then).
+func (e *env) response(world *World, docBytes []byte, p RespSpec, again bool) (readBack func()) {
 	s, log, res := e.s, e.log, e.res
-	p := s.Resp
+	readBack = func() {}
 	tag := ""
 	if again {
 		tag = "again/"
@@ -771,7 +817,6 @@ func (e *env) response(world *World, docBytes []byte, again bool) {
 		violate("verdict", "verdict-depends-on-delivery", fmt.Sprintf("streamed: %v; same bytes in memory: %v (chunk plan %+v)", verr, nverr, p.Chunk))
 	}
 	// the body stays readable afterwards, on every return path
-	e.party = "next"
 	sig := func(k string) string {
 		path := "early-return"
 		if consumed {
@@ -783,19 +828,23 @@ func (e *env) response(world *World, docBytes []byte, again bool) {
 		}
 		return fmt.Sprintf("%s:%s/%s", k, path, v)
 	}
-	if in.Body == nil {
-		violate("readable", sig("body-nil"), fmt.Sprintf("input.Body is nil after ValidateResponse (status %d, verdict %v)", p.Status, verr))
-		return
+	readBack = func() {
+		e.party = "next"
+		if in.Body == nil {
+			violate("readable", sig("body-nil"), fmt.Sprintf("input.Body is nil after ValidateResponse (status %d, verdict %v)", p.Status, verr))
+			return
+		}
+		data, _, rerr := simenv.ReadAllLimited(in.Body, s.ReadBuf, 1<<16)
+		if st.FaultFired {
+			res.Fault("respbody_" + p.Chunk.FaultKind + "_at_next_reader")
+			return // validation never touched the stream; the next reader met the fault itself
+		}
+		if rerr != nil {
+			violate("readable", sig("body-read-error"), fmt.Sprintf("reading the response body after validation failed: %v (got %d of %d bytes)", rerr, len(data), len(orig)))
+		} else if !bytes.Equal(data, orig) {
+			violate("readable", sig("body-altered"), fmt.Sprintf("response body after validation: %d bytes %q; original %d bytes %q", len(data), simfw.Trunc(string(data), 100), len(orig), simfw.Trunc(string(orig), 100)))
+		}
+		res.Probe("resp-readable-checked")
 	}
-	data, _, rerr := simenv.ReadAllLimited(in.Body, s.ReadBuf, 1<<16)
-	if st.FaultFired {
-		res.Fault("respbody_" + p.Chunk.FaultKind + "_at_next_reader")
-		return // validation never touched the stream; the next reader met the fault itself
-	}
-	if rerr != nil {
-		violate("readable", sig("body-read-error"), fmt.Sprintf("reading the response body after validation failed: %v (got %d of %d bytes)", rerr, len(data), len(orig)))
-	} else if !bytes.Equal(data, orig) {
-		violate("readable", sig("body-altered"), fmt.Sprintf("response body after validation: %d bytes %q; original %d bytes %q", len(data), simfw.Trunc(string(data), 100), len(orig), simfw.Trunc(string(orig), 100)))
-	}
-	res.Probe("resp-readable-checked")
+	return readBack
 }
